@@ -23,7 +23,7 @@ EXPLANATION = (
     "TCV/GPV/pumps; quality by quality type), always with the flow-unit system read from the header of the same file; two parameters count as the "
     "same class when the harness's own reference factors (c17.ref_hyd) agree at GPM, LPS and SI only -- Length, HydraulicHead, Elevation, "
     "TankDiameter and Velocity share one signature, so converting velocity as a length would pass (T2, symbolic execution; FlowUnits(x[9]) by AST pattern); "
-    "(R-C03-2, T1 AST / text match: calls found by name, unparsed argument text compared, order by the line number of the first call of each name) "
+    "(R-C03-2, T2+T1: the calls of EpanetSimulator.run_sim read off its symbolic execution with locals resolved, arguments compared as values; order by CFG dominance / must-pass) "
     "EpanetSimulator.run_sim writes the INP in options.hydraulic.inpfile_units, opens EPANET on that file and reads the binary file of "
     "the same run, passing the Darcy-Weisbach flag from the head-loss option; START CLOCKTIME round-trips on 72 clock times (T3, bounded); "
     "(R-C03-3, exhaustive over the codes 0-7) the status codes of the binary file are mapped "
@@ -558,25 +558,49 @@ def run(repo, chk):
     # ---------------------------------------------------------------- R-C03-2 same file, same units
     rs = repo.func(ESIM, "EpanetSimulator.run_sim")
     chk.fn(rs)
-    wi = [c for c in calls(rs) if last_attr(c) == "write_inpfile"]
-    op = [c for c in calls(rs) if last_attr(c) == "ENopen"]
-    rr = [c for c in calls(rs) if last_attr(c) == "read" and "reader" in unparse(c.func.value)]
-    if not (wi and op and rr):
-        raise ExtractError("EpanetSimulator.run_sim: write_inpfile / ENopen / reader.read not found")
-    kw = {k.arg: unparse(k.value) for k in wi[0].keywords}
-    chk.expect(unparse(wi[0].args[0]) == "self._wn" and kw.get("units") == "self._wn.options.hydraulic.inpfile_units", "R-C03-2",
-               "the INP file is written from the simulator's model in options.hydraulic.inpfile_units", loc(rs, wi[0]), found=norm(wi[0]))
-    chk.expect(unparse(op[0].args[0]) == unparse(wi[0].args[1]), "R-C03-2", "EPANET is opened on the file that was just written", loc(rs, op[0]), found=norm(op[0]))
-    chk.expect(unparse(rr[0].args[0]) == unparse(op[0].args[2]), "R-C03-2", "the binary file read back is the output file of this run", loc(rs, rr[0]), found=norm(rr[0]))
-    dw = unparse(rr[0].args[2]) if len(rr[0].args) > 2 else {k.arg: unparse(k.value) for k in rr[0].keywords}.get("darcy_weisbach")
-    chk.expect(dw is not None and "options.hydraulic.headloss" in dw and "D-W" in dw, "R-C03-2", "the Darcy-Weisbach flag passed to the reader comes from options.hydraulic.headloss", loc(rs, rr[0]), found=dw)
+    # the calls are read off the symbolic execution of run_sim (arguments with locals resolved to what they were computed from); order is decided on the CFG
+    from ..symx import SymExec as _SX, Opaque as _Op
+    from ..cfg import CFG as _CFG
+    exs = _SX()
+    paths = [o for o in exs.run(rs, {"self": _Op("self")}) if o.raised is None]
+
+    def ev_calls(o, suffix):
+        return [e for e in o.events if e[0] == "call" and (e[2][0] == suffix or e[2][0].endswith("." + suffix))]
+    n_paths = 0
     sig = [a.arg for a in rd.args.args]
-    chk.expect(sig[:5] == ["self", "filename", "convergence_error", "darcy_weisbach", "convert"], "R-C03-2", "BinFile.read's positional parameters are (filename, convergence_error, darcy_weisbach, convert)",
-               loc(rd), found=sig)
-    order_ok = wi[0].lineno < op[0].lineno < rr[0].lineno
-    solve = [c for c in calls(rs) if last_attr(c) in ("ENsolveH", "ENusehydfile")]
-    close = [c for c in calls(rs) if last_attr(c) == "ENclose"]
-    chk.expect(order_ok and bool(solve) and bool(close) and close[0].lineno < rr[0].lineno, "R-C03-2", "order: write INP, open, solve, close, read results", loc(rs))
+    for o in paths:
+        wi, op, rr = ev_calls(o, "write_inpfile"), ev_calls(o, "ENopen"), [e for e in ev_calls(o, "read") if "reader" in e[2][0]]
+        if not rr:
+            continue
+        n_paths += 1
+        if not (wi and op):
+            chk.bad("R-C03-2", "every path that reads results wrote the INP file and opened EPANET on it", loc(rs), found=o.label()[-160:])
+            continue
+        wargs, wkw = wi[0][2][1], wi[0][2][2]
+        oargs, rargs, rkw = op[0][2][1], rr[-1][2][1], rr[-1][2][2]
+        txt = lambda v: exs.text(v)
+        chk.expect(len(wargs) >= 2 and txt(wargs[0]) == "self._wn" and txt(wkw.get("units")) == "self._wn.options.hydraulic.inpfile_units", "R-C03-2",
+                   "the INP file is written from the simulator's model in options.hydraulic.inpfile_units", loc(rs), found=wi[0][1][:160])
+        chk.expect(len(oargs) >= 3 and len(wargs) >= 2 and exs.same(oargs[0], wargs[1]), "R-C03-2", "EPANET is opened on the file that was just written", loc(rs), found=op[0][1][:160])
+        chk.expect(bool(rargs) and len(oargs) >= 3 and exs.same(rargs[0], oargs[2]), "R-C03-2", "the binary file read back is the output file of this run", loc(rs), found=rr[-1][1][:160])
+        bound = dict(zip(sig[1:], rargs))
+        bound.update(rkw)
+        dw = txt(bound["darcy_weisbach"]) if "darcy_weisbach" in bound else None
+        chk.expect(dw is not None and "options.hydraulic.headloss" in dw and "D-W" in dw, "R-C03-2", "the Darcy-Weisbach flag passed to the reader comes from options.hydraulic.headloss", loc(rs), found=dw)
+        break
+    if not n_paths:
+        raise ExtractError("EpanetSimulator.run_sim: no path calls reader.read")
+    chk.expect("darcy_weisbach" in sig and "convergence_error" in sig and sig[1] == "filename", "R-C03-2", "BinFile.read takes (filename, convergence_error, darcy_weisbach, ...)", loc(rd), found=sig)
+    g = _CFG(rs)
+    wn_, on_, rn_ = g.calling("write_inpfile"), g.calling("ENopen"), [n_ for n_ in g.calling("read") if "reader" in unparse(g.node_ast(n_))]
+    sn_, cn_ = g.calling("ENsolveH") + g.calling("ENusehydfile"), g.calling("ENclose")
+    if not (wn_ and on_ and rn_ and sn_ and cn_):
+        raise ExtractError("EpanetSimulator.run_sim: write_inpfile / ENopen / ENsolveH / ENclose / reader.read not found")
+    idom = g.dominators()
+    order_ok = g.dominates(wn_[0], on_[0], idom) and g.dominates(on_[0], rn_[0], idom) and g.dominates(cn_[0], rn_[0], idom) \
+        and g.must_pass(on_[0], set(cn_), set(sn_))[0]
+    chk.expect(order_ok, "R-C03-2", "order: write INP, open, solve, close, read results", loc(rs),
+               "CFG: the write dominates the open, the open and the close dominate the read, every path from the open to the close passes a hydraulic solve (or loads a hydraulics file)")
     # the clock the two engines share: START CLOCKTIME written into the INP must read back (by EPANET's 12-hour convention, which
     # _clock_time_to_sec implements) as options.time.start_clocktime, or clock-time controls fire 12 h apart in the two simulators
     from ._shared import clocktime_round_trip
